@@ -9,7 +9,7 @@ MUTATING = {"open_w", "mkdir", "unlink", "rmdir", "rename", "chmod", "symlink", 
 DIR_MODES = [0o755, 0o555, 0o666, 0o000, 0o311, 0o700,
              0o575, 0o655, 0o355, 0o477, 0o077, 0o070]      # owner has fewer rights than group / others
 FILE_MODES = [0o644, 0o600, 0o444, 0o000, 0o755]
-OPS = ["uncached", "cached-delete", "trait-recreate", "trait-migrate-recreate", "cached-invalid-delete", "trait-recreate-create-fails"]
+OPS = ["uncached", "cached-delete", "trait-recreate", "trait-migrate-recreate", "cached-invalid-delete", "trait-recreate-create-fails", "trait-recreate-write-fails-then-uncached"]
 LINK_KINDS = ["in-file", "in-dir", "sib-file", "sib-dir", "canary-file", "canary-dir", "abs-canary-file", "abs-canary-dir", "dangling", "self", "mutual", "up", "layers-root",
               "hard-canary-file", "hard-sib-file"]      # hard links: a second name of an inode that lives outside the layer (mode/content changes would show there)
 TOP_KINDS = ["dir", "dir", "dir", "link-sibling-dir", "link-canary-dir", "link-canary-file", "link-dangling", "link-abs-canary-dir", "link-canary-empty-dir", "link-sibling-empty-dir"]
@@ -125,7 +125,7 @@ def make_case(r, root, op):
             os.symlink(os.path.basename(p), p + ".peer")
         kinds.add(kind)
     # the layer's own metadata file for the routes that need a readable layer
-    md = {"uncached": 'v = "1"', "cached-delete": 'v = "1"', "trait-recreate": 'v = "1"', "trait-migrate-recreate": 'other = "x"', "cached-invalid-delete": 'other = "x"', "trait-recreate-create-fails": 'v = "1"'}[op]
+    md = {"uncached": 'v = "1"', "cached-delete": 'v = "1"', "trait-recreate": 'v = "1"', "trait-migrate-recreate": 'other = "x"', "cached-invalid-delete": 'other = "x"', "trait-recreate-create-fails": 'v = "1"', "trait-recreate-write-fails-then-uncached": 'v = "1"'}[op]
     shape = r.random()
     if op == "trait-migrate-recreate" and shape < 0.5:
         # metadata of another type can also be NO metadata: a toml without [metadata] table, or (restored that way) no toml at all
@@ -163,6 +163,12 @@ def request_for(op, name):
         # the old layer is deleted, then the buildpack's create() fails: what was deleted stays deleted
         return {"op": "handle", "name": name, "impl": "v1", "types": {"launch": True, "build": False, "cache": True}, "strategy": "recreate",
                 "migrate": {"action": "recreate", "metadata_value": "m"}, "create": {"err": "boom-create"}, "update": res}
+    if op == "trait-recreate-write-fails-then-uncached":
+        # the old layer is deleted, create() succeeds, writing its result fails half-way (SBOMs are written, then an exec.d program whose source
+        # does not exist); the error is handled and the buildpack asks for the layer anew (see run_case): nothing of either incarnation remains
+        bad = dict(res, sboms=[["syft", "7b2273223a317d"], ["cdx", "7b2263223a327d"]], exec_d=[["z-missing", "/nonexistent-vp/prog"]])
+        return {"op": "handle", "name": name, "impl": "v1", "types": {"launch": True, "build": False, "cache": True}, "strategy": "recreate",
+                "migrate": {"action": "recreate", "metadata_value": "m"}, "create": bad, "update": bad}
     if op == "trait-recreate":
         return {"op": "handle", "name": name, "impl": "v1", "types": {"launch": True, "build": False, "cache": True}, "strategy": "recreate",
                 "migrate": {"action": "recreate", "metadata_value": "m"}, "create": res, "update": res}
@@ -204,6 +210,10 @@ def run_case(base, idx, seed, op, shim, sh):
                 os.rmdir(gone)
             mon.call({"op": "init", "layers_dir": "layers" if stance == 3 else layers, "app_dir": os.path.join(root, "app"), "bp_dir": os.path.join(root, "bp"), **({"chdir": root} if stance == 3 else {})})
             rep = mon.call(request_for(op, name))
+            if op == "trait-recreate-write-fails-then-uncached":
+                if "MissingExecDFile" in rep.get("detail", "") or "z-missing" in rep.get("detail", "") or "nonexistent-vp" in rep.get("detail", ""):
+                    sh.count("results_that_failed_to_be_written_then_layer_requested_anew")
+                rep = mon.call(request_for("uncached", name))
         except vp.ExecutorDied as e:
             sh.evaluations += 1
             sh.violation("process-died", "%s on a layer whose path is %s, containing links %r: the process died (status %s) inside the call" % (op, info["top"], info["link_kinds"], e.status), case)
